@@ -70,7 +70,7 @@ Inductive py_eq : pyval -> pyval -> Prop :=
 | PE_bool b : py_eq (PBool b) (PBool b)
 | PE_str s : py_eq (PStr s) (PStr s)
 | PE_bytes s : py_eq (PBytes s) (PBytes s)
-| PE_enum n z : py_eq (PEnum n z) (PEnum n z)
+| PE_enum n n' z : py_eq (PEnum n z) (PEnum n' z)        (* EnumMember.__eq__ compares the codes *)
 | PE_tuple l l' : Forall2 py_eq l l' -> py_eq (PTuple l) (PTuple l')
 | PE_dict kv kv' : Forall2 (fun p q => fst p = fst q /\ py_eq (snd p) (snd q)) kv kv' -> py_eq (PDict kv) (PDict kv').
 
@@ -111,7 +111,7 @@ Variable C : codec.
 
 (* the round trip of one value through export, import on the node and validation *)
 Definition rt (d : dtype) (v : pyval) : Prop :=
-  exists j w v', dt_export C d v = Ok j /\ dt_import E d j = Ok w /\ dt_validate d w PNone = Ok v' /\ py_eq v v'.
+  exists j w v', dt_export C d v = Ok j /\ dt_import E d j = Ok w /\ dt_validate d w PNone = Ok v' /\ py_eq v v' /\ w <> PNone.
 
 (* ... for every valid value of a (numeric leaf) type: a fact of binary64 arithmetic *)
 Definition num_rt (d : dtype) : Prop := forall v, valid d v = true -> rt d v.
@@ -134,7 +134,7 @@ Proof.
   intros Hv IH. induction l as [|x l IHl].
   - exists [], [], []. repeat split; constructor.
   - cbn in Hv. apply andb_prop in Hv. destruct Hv as [Hx Hl].
-    destruct (IH x Hx) as (j & w & v' & H1 & H2 & H3 & H4).
+    destruct (IH x Hx) as (j & w & v' & H1 & H2 & H3 & H4 & H5).
     destruct (IHl Hl) as (js & ws & vs & G1 & G2 & G3 & G4 & G5).
     exists (j :: js), (w :: ws), (v' :: vs). rewrite !map_res_cons, H1, H2, H3, G1, G2, G3. cbn.
     repeat split; [constructor; assumption|congruence].
@@ -149,7 +149,7 @@ Proof.
   induction es as [|d1 es IHes]; intros HF [|x l] Hv; cbn in Hv; try discriminate.
   - exists [], [], []. repeat split; constructor.
   - apply andb_prop in Hv. destruct Hv as [Hx Hl]. inversion HF as [|? ? Hd HF']; subst.
-    destruct (Hd x Hx) as (j & w & v' & H1 & H2 & H3 & H4).
+    destruct (Hd x Hx) as (j & w & v' & H1 & H2 & H3 & H4 & H5).
     destruct (IHes HF' l Hl) as (js & ws & vs & G1 & G2 & G3 & G4 & G5 & G6).
     exists (j :: js), (w :: ws), (v' :: vs). rewrite !mapd_res_cons, H1, H2, H3, G1, G2, G3. cbn.
     repeat split; [constructor; assumption|congruence|congruence].
@@ -180,7 +180,7 @@ Proof. induction a as [|x a IH]; cbn; [reflexivity|]. rewrite IH, orb_assoc. ref
 Lemma member_chain ms : Forall (fun m => forall v, valid (snd m) v = true -> rt (snd m) v) ms ->
   forall k x, entry_ok valid ms (k, x) = true ->
   exists j w v', member_res (dt_export C) k x ms = Ok j /\ member_res (dt_import E) k j ms = Ok w /\
-    member_res (fun d y => dt_validate d y PNone) k w ms = Ok v' /\ py_eq x v'.
+    member_res (fun d y => dt_validate d y PNone) k w ms = Ok v' /\ py_eq x v' /\ w <> PNone.
 Proof.
   induction ms as [|[n d1] ms IH]; intros HF k x Hk; [discriminate|].
   inversion HF as [|? ? H1 HF']; subst. cbn [snd] in H1.
@@ -207,7 +207,7 @@ Proof.
   - exists [], [], []. cbn. rewrite !app_nil_r. repeat split; constructor.
   - cbn in Hv. apply andb_prop in Hv. destruct Hv as [Hx Hv]. cbn in Hn. apply andb_prop in Hn. destruct Hn as [Hk Hn].
     apply negb_true_iff in Hk.
-    destruct (member_chain ms HF k x Hx) as (j & w & v' & M1 & M2 & M3 & M4).
+    destruct (member_chain ms HF k x Hx) as (j & w & v' & M1 & M2 & M3 & M4 & M5).
     assert (Hf1 : mem_str k (keys a1) = false).
     { apply Hd. cbn. rewrite str_eqb_refl. reflexivity. }
     assert (Hf2 : mem_str k (keys a2) = false) by (rewrite <- K12; exact Hf1).
@@ -219,9 +219,173 @@ Proof.
       rewrite (Hd k0) by (cbn; rewrite Hk0; apply orb_true_r). cbn.
       destruct (str_eqb k0 k) eqn:Ek; [|reflexivity]. apply str_eqb_eq in Ek. subst. congruence. }
     exists ((k, j) :: js), ((k, w) :: ws), ((k, v') :: vs).
-    rewrite !struct_fold_step by (first [left; reflexivity | right; eapply py_eq_not_none; eassumption]).
+    rewrite !struct_fold_step by (first [left; reflexivity | right; exact M5]).
     rewrite M1, M2, M3. cbn [bind]. rewrite !dict_set_fresh by assumption.
-    rewrite G1, G2, G3, <- !app_assoc. cbn. repeat split; try (constructor; [split; [reflexivity|exact M4]|exact G4]); congruence.
+    rewrite G1, G2, G3, <- !app_assoc. cbn.
+    split; [reflexivity|]. split; [reflexivity|]. split; [reflexivity|].
+    split; [constructor; [split; [reflexivity|exact M4]|exact G4]|].
+    unfold keys in *. cbn. split; f_equal; assumption.
+Qed.
+
+
+(* ---------------------------------------------------------------- leaves that need no float arithmetic *)
+Lemma enum_value_found n z ms :
+  existsb (fun p => str_eqb n (fst p) && Z.eqb z (snd p)) ms = true -> exists n', enum_by_value z ms = Some (n', z).
+Proof.
+  induction ms as [|[n1 z1] ms IH]; cbn; [discriminate|]. intros H.
+  destruct (Z.eqb z z1) eqn:Ez.
+  - apply Z.eqb_eq in Ez. subst. eauto.
+  - rewrite andb_false_r in H. cbn in H. apply IH, H.
+Qed.
+
+Lemma rt_bool v : valid TBool v = true -> rt TBool v.
+Proof.
+  destruct v; cbn; try discriminate. intros _. exists (PBool b), (PBool b), (PBool b).
+  destruct b; cbn; repeat split; try constructor; discriminate.
+Qed.
+
+Lemma rt_enum ms v : valid (TEnum ms) v = true -> rt (TEnum ms) v.
+Proof.
+  destruct v; cbn; try discriminate. intros H. destruct (enum_value_found _ _ _ H) as (n' & Hn).
+  exists (PInt v), (PEnum n' v), (PEnum n' v). cbn. unfold enum_export. cbn. rewrite Hn. cbn.
+  repeat split; try constructor; discriminate.
+Qed.
+
+Lemma string_call_ok a b u s : str_ok a b u s = true -> string_call a b u (PStr s) = Ok (PStr s).
+Proof.
+  unfold str_ok, string_call. intros H. apply andb_prop in H. destruct H as [H H4]. apply andb_prop in H.
+  destruct H as [H H3]. apply andb_prop in H. destruct H as [H1 H2]. apply negb_true_iff in H4.
+  rewrite !Z.ltb_antisym, H2, H3, H4. cbn.
+  destruct u; cbn in *; [reflexivity|]. rewrite H1. reflexivity.
+Qed.
+
+Lemma rt_string a b u v : valid (TString a b u) v = true -> rt (TString a b u) v.
+Proof.
+  destruct v; cbn [valid in_setb]; try discriminate. intros H. exists (PStr s), (PStr s), (PStr s).
+  cbn [dt_export dt_import dt_validate dt_call string_export].
+  rewrite (string_call_ok _ _ _ _ H). repeat split; try constructor; discriminate.
+Qed.
+
+Lemma rt_blob a b v : b64_law -> valid (TBlob a b) v = true -> rt (TBlob a b) v.
+Proof.
+  intros HB. destruct v; cbn [valid in_setb]; try discriminate. intros H. destruct (HB b0) as (s & H1 & H2).
+  exists (PStr s), (PBytes b0), (PBytes b0). cbn [dt_export dt_import dt_validate dt_call blob_export blob_import blob_call].
+  rewrite H1, H2.
+  apply andb_prop in H. destruct H as [Ha Hb]. rewrite !Z.ltb_antisym, Ha, Hb. cbn.
+  repeat split; try constructor; discriminate.
+Qed.
+
+Lemma array_check_len a b l :
+  (a <=? Z.of_nat (length l))%Z = true -> (Z.of_nat (length l) <=? b)%Z = true -> array_check a b (PTuple l) = Ok tt.
+Proof. intros H1 H2. unfold array_check. cbn. rewrite !Z.ltb_antisym, H1, H2. reflexivity. Qed.
+
+Lemma tuple_check_len n l : length l = n -> tuple_check n (PTuple l) = Ok tt.
+Proof. intros H. unfold tuple_check. cbn. rewrite H, Z.eqb_refl. reflexivity. Qed.
+
+Lemma all2_length {Q} es l : all2 Q es l = true -> length l = length es.
+Proof.
+  revert l; induction es as [|d es IH]; intros [|x l]; cbn; try discriminate; auto.
+  intros H. apply andb_prop in H. destruct H as [_ H]. f_equal. apply IH, H.
+Qed.
+
+(* struct_check accepts a dict whose keys are declared and that carries the members it must *)
+Lemma struct_check_valid ms o c allow kv :
+  forallb (fun p : str * pyval => mem_str (fst p) (map fst ms)) kv = true ->
+  forallb (fun n => mem_str n (map fst kv) || ((c || allow) && mem_str n o)) (map fst ms) = true ->
+  struct_check (map fst ms) o c allow (PDict kv) = Ok tt.
+Proof.
+  intros H1 H2. unfold struct_check. cbn [py_dict].
+  assert (Hs : existsb (fun p => negb (mem_str (fst p) (map fst ms))) kv = false).
+  { induction kv as [|p kv IH]; cbn; [reflexivity|]. cbn in H1. apply andb_prop in H1. destruct H1 as [Hp H1].
+    rewrite Hp. cbn. apply IH, H1. }
+  rewrite Hs.
+  assert (Hm : (if c || allow
+                then filter (fun n => negb (mem_str n o)) (filter (fun n => negb (mem_str n (map fst kv))) (map fst ms))
+                else filter (fun n => negb (mem_str n (map fst kv))) (map fst ms)) = []).
+  { induction (map fst ms) as [|n names IH]; [destruct (c || allow); reflexivity|].
+    cbn in H2. apply andb_prop in H2. destruct H2 as [Hn H2]. specialize (IH H2).
+    cbn. destruct (mem_str n (map fst kv)); cbn; [exact IH|].
+    cbn in Hn. destruct (c || allow); cbn in *; [|discriminate]. rewrite Hn. cbn. exact IH. }
+  rewrite Hm. reflexivity.
+Qed.
+
+Lemma forallb_imp {A} (f g : A -> bool) l :
+  (forall x, f x = true -> g x = true) -> forallb f l = true -> forallb g l = true.
+Proof.
+  intros H. induction l as [|x l IH]; cbn; [reflexivity|]. intros H1. apply andb_prop in H1. destruct H1 as [Hx Hl].
+  rewrite (H x Hx). apply IH, Hl.
+Qed.
+
+Lemma entry_ok_declared Q ms p : entry_ok Q ms p = true -> mem_str (fst p) (map fst ms) = true.
+Proof.
+  induction ms as [|[n d1] ms IH]; [discriminate|].
+  change (entry_ok Q ((n, d1) :: ms) p) with (if str_eqb (fst p) n then Q d1 (snd p) else entry_ok Q ms p).
+  cbn. destruct (str_eqb (fst p) n); cbn; auto.
+Qed.
+
+(* ---------------------------------------------------------------- the round trip, all datatype trees *)
+Theorem wire_roundtrip : b64_law -> forall d, num_leaves num_rt d -> forall v, valid d v = true -> rt d v.
+Proof.
+  intros HB. induction d as [a b c d|a b|a b c| |ms|a b u|a b|e a b IHe|es IHes|ms o c IHms] using dtype_ind';
+    intros HL v Hv.
+  - apply HL, Hv.
+  - apply HL, Hv.
+  - apply HL, Hv.
+  - apply rt_bool, Hv.
+  - apply rt_enum, Hv.
+  - apply rt_string, Hv.
+  - apply rt_blob; assumption.
+  - (* array *)
+    destruct v; try discriminate. cbn [valid] in Hv. apply andb_prop in Hv. destruct Hv as [Hv Hl].
+    apply andb_prop in Hv. destruct Hv as [H1 H2].
+    destruct (map_chain e l Hl (IHe HL)) as (js & ws & vs & G1 & G2 & G3 & G4 & G5).
+    exists (PList js), (PTuple ws), (PTuple vs). cbn [dt_export dt_import dt_validate].
+    rewrite (array_check_len _ _ _ H1 H2). cbn. rewrite G1. cbn. rewrite G2. cbn.
+    rewrite array_check_len by (rewrite G5; assumption). cbn. rewrite G3. cbn.
+    repeat split; [constructor; exact G4|discriminate].
+  - (* tuple *)
+    destruct v; try discriminate. rewrite valid_tuple in Hv.
+    apply num_leaves_tuple in HL.
+    assert (HF : Forall (fun d => forall v, valid d v = true -> rt d v) es).
+    { clear Hv. induction es as [|d1 es IH]; constructor.
+      - inversion IHes; subst. inversion HL; subst. auto.
+      - inversion IHes; subst. inversion HL; subst. auto. }
+    destruct (mapd_chain es HF l Hv) as (js & ws & vs & G1 & G2 & G3 & G4 & G5 & G6).
+    pose proof (all2_length _ _ Hv) as Hlen.
+    exists (PList js), (PTuple ws), (PTuple vs). cbn [dt_export dt_import dt_validate].
+    rewrite (tuple_check_len _ _ Hlen). cbn. rewrite G1. cbn. rewrite G2. cbn.
+    rewrite tuple_check_len by congruence. cbn. rewrite G3. cbn.
+    repeat split; [constructor; exact G4|discriminate].
+  - (* struct *)
+    destruct v; try discriminate. rewrite valid_struct in Hv. apply andb_prop in Hv. destruct Hv as [Hv H3].
+    apply andb_prop in Hv. destruct Hv as [H1 H2].
+    apply num_leaves_struct in HL.
+    assert (HF : Forall (fun m => forall v, valid (snd m) v = true -> rt (snd m) v) ms).
+    { clear H2 H3. induction ms as [|m ms IH]; constructor.
+      - inversion IHms; subst. inversion HL; subst. auto.
+      - inversion IHms; subst. inversion HL; subst. auto. }
+    destruct (struct_chain ms HF kv [] [] [] H2 H1 eq_refl eq_refl (fun _ _ => eq_refl))
+      as (js & ws & vs & G1 & G2 & G3 & G4 & G5 & G6).
+    cbn [app] in *.
+    assert (Hdecl : forall l : list (str * pyval), keys l = keys kv -> forallb (fun p => mem_str (fst p) (map fst ms)) l = true).
+    { intros l0 Hk. assert (Hall : forallb (fun k => mem_str k (map fst ms)) (keys kv) = true).
+      { clear - H2. induction kv as [|p kv IH]; cbn; [reflexivity|]. cbn in H2. apply andb_prop in H2.
+        destruct H2 as [Hp H2]. rewrite (entry_ok_declared _ _ _ Hp). apply IH, H2. }
+      rewrite <- Hk in Hall. clear - Hall. induction l0 as [|p l0 IH]; cbn in *; [reflexivity|].
+      apply andb_prop in Hall. destruct Hall as [Hp Hall]. rewrite Hp. apply IH, Hall. }
+    exists (PDict js), (PDict ws), (PDict vs). cbn [dt_export dt_import dt_validate].
+    assert (Hreq : forall l allow, keys l = keys kv ->
+              forallb (fun n => mem_str n (map fst l) || ((c || allow) && mem_str n o)) (map fst ms) = true).
+    { intros l0 allow Hk. unfold keys in Hk. rewrite Hk. revert H3. apply forallb_imp. intros n Hn.
+      apply orb_prop in Hn. destruct Hn as [Hn|Hn]; [rewrite Hn; reflexivity|].
+      apply andb_prop in Hn. destruct Hn as [Hc Hn]. rewrite Hc, Hn. cbn. apply orb_true_r. }
+    rewrite (struct_check_valid ms o c false kv) by (auto using Hdecl, Hreq).
+    cbn [bind is_dict negb dict_items]. rewrite G1. cbn [bind].
+    rewrite (struct_check_valid ms o c true js) by (auto using Hdecl, Hreq).
+    cbn [bind is_dict negb dict_items]. rewrite G2. cbn [bind py_truthy].
+    rewrite (struct_check_valid ms o c true ws) by (auto using Hdecl, Hreq).
+    cbn [bind is_dict negb dict_items]. rewrite G3. cbn.
+    repeat split; [constructor; exact G4|discriminate].
 Qed.
 
 End RT.
